@@ -5,7 +5,7 @@
 # then runs the named quick check(s) against the changed copy and records everything in /verif/seeded/<PROP>-<n>/.
 set -u
 P=$1; N=$2; shift 2
-SRC=/tmp/wt/out/$P
+SRC=${SEED_SRC:-/tmp/wt/out/$P}
 HERE=$(cd "$(dirname "$0")/.." && pwd)
 SCR=$(mktemp -d /tmp/vseed.XXXXXX)
 trap 'rm -rf "$SCR"' EXIT
@@ -27,7 +27,7 @@ for C in "$P" "$@"; do
   results="$results{\"check\":\"$C\",\"result\":\"$st\",\"witness\":\"$(echo "$w" | sed 's/"/\\"/g')\"},"
 done
 if [ $rc_clean -eq 0 ] && [ $rc_mut -ne 0 ] && [ $rc_base -eq 0 ]; then
-  D="$HERE/seeded/$P-$N"; mkdir -p "$D"
+  D="$HERE/seeded/${SEED_ID:-$P-$N}"; mkdir -p "$D"
   cp "$SRC/mutant$N.diff" "$D/patch.diff"; cp "$SRC/demo$N.py" "$D/demo.py"
   /venv/bin/python - "$D" "$P" "$N" "$results" "$SRC/notes.md" <<'PY'
 import json,sys,os
@@ -40,7 +40,7 @@ json.dump({"property":p,"source":"independent sub-agent given only the property 
               "how":"tools/confirm_seed.sh on a scratch copy of /repo (rsync + patch -p1), tools/baseline_off.py with VERIF_REPO"},
  "checks_run":res}, open(os.path.join(d,"meta.json"),"w"), indent=1)
 PY
-  echo "   kept as seeded/$P-$N"
+  echo "   kept as seeded/${SEED_ID:-$P-$N}"
 else
   echo "   NOT KEPT (demo/baseline conditions not met)"
 fi
